@@ -20,6 +20,15 @@ CHECKS = {
              'the unit, capacity and no-growth clauses for all numeric values. '
              'Bounds (providers, classes, consumers) per family in evidence.',
         ref='DESIGN.md section 5 C01'),
+    'C03': dict(
+        text='Bounded symbolic model checking against a relational oracle: '
+             'for each (topology, query) family every path of the real GET '
+             '/allocation_candidates code is explored over symbolic '
+             'inventories, usage, trait/aggregate/sharing bits and requested '
+             'amounts; on each path z3 proves that every returned candidate '
+             'is a valid combination, that every valid combination is '
+             'returned, and that no candidate is returned twice.',
+        ref='DESIGN.md section 5 C03, Appendix B'),
     'C04': dict(
         text='Bounded symbolic model checking: every path of 35 write-request '
              'shapes (allocation PUT/POST/DELETE, reshaper, inventory, trait, '
